@@ -165,6 +165,17 @@ class SnmpSession(object):
     ) -> None:
         """Asynchronous context manager exit."""
 
+    def _ensure_discovered(self: "SnmpSession") -> None:
+        """
+        Run the deferred engine id discovery.
+
+        A session created without an engine id and used
+        without entering it (or calling refresh() explicitly)
+        installs the user's keys before the first request.
+        """
+        if self._deferred_user:
+            self.refresh()
+
     def get(self: "SnmpSession", oid: str) -> ValueType:
         """
         Send SNMP GET request and await for response.
@@ -182,6 +193,7 @@ class SnmpSession(object):
             NoSuchInstance: When requested key is not found.
             SnmpError: On other SNMP-related errors.
         """
+        self._ensure_discovered()
         if self._policer:
             self._policer.wait_sync()
         try:
@@ -213,6 +225,7 @@ class SnmpSession(object):
             RuntimeError: On Python runtime failure.
             SnmpError: On other SNMP-related errors.
         """
+        self._ensure_discovered()
         if self._policer:
             self._policer.wait_sync()
         try:
@@ -238,6 +251,7 @@ class SnmpSession(object):
                 print(oid, value)
             ```
         """
+        self._ensure_discovered()
         return GetNextIter(self._sock, oid, self._policer)
 
     def getbulk(
@@ -260,6 +274,7 @@ class SnmpSession(object):
                 print(oid, value)
             ```
         """
+        self._ensure_discovered()
         return GetBulkIter(
             self._sock,
             oid,
